@@ -180,7 +180,10 @@ PROPS["C13"] = dict(
          "sender tasks x sync/async path: per-peer counts differ by <= 1 + extra sender tasks), readiness patterns (every peer full at sweep "
          "time, one frees after 1..5 ms, one never: the send must complete when the first peer frees, not at the blocked-on peer's timeout), "
          "churn histories (add/remove/toggle-full/send with one always-ready member: exactly-once, removed peers get nothing, no starvation "
-         "within 2n sends). The first-peer waiter race is decided under C08. (e2e) real PUSH (SNDHWM 8) -> 1..4 PULLs over tcp, optionally "
+         "within 2n sends), first-peer histories (2..6 sender tasks parked in route_message(wait_for_peer) with no connection, one peer added "
+         "after 0..10 ms: every send must complete and be accepted within 60 s of virtual time). The single-waiter check-then-park race is decided "
+         "under C08. (e2e) 2/4/8 tasks blocked in PUSH.send() before any peer exists, then one PULL connects over tcp/inproc/ipc: all messages "
+         "arrive once and all sends return Ok; real PUSH (SNDHWM 8) -> 1..4 PULLs over tcp, optionally "
          "with a raw peer that handshakes and never reads: exactly-once over the readers, no send slower than 1.5 s. distinct = case parameters.",
     assumptions=["property-level invariants, not an exact cursor model: unequal shares among partially ready peers are legitimate",
                  "the paused tokio clock is legitimate here because LoadBalancer/Orchestrator do no I/O"],
